@@ -414,3 +414,8 @@ for _p, _note in (("C06", "client half: theorems c06_client_*; monitor ClientSpe
     _r = PROPS[_p]["relevant"]
     PROPS[_p]["relevant"] = (lambda r: (lambda line: r(line) or line.startswith("DIFF client ")))(_r)
     PROPS[_p]["level_text"] += "; " + _note
+
+# the timing budgets of C19 are also exercised through the client library (ConnectTimeout vs RetryDelay)
+PROPS["C19"]["suites"] = ["tx", "client"]
+_c19rel = PROPS["C19"]["relevant"]
+PROPS["C19"]["relevant"] = lambda line: _c19rel(line) or line.startswith("DIFF client ")
